@@ -64,9 +64,9 @@ func addNumbers(n0, n1 slip.Object) slip.Object {
 			(*big.Float)(t0)),
 		)
 	case *slip.Bignum:
-		n1 = (*slip.Bignum)(new(big.Int).Add((*big.Int)(n1.(*slip.Bignum)), (*big.Int)(t0)))
+		n1 = reduceInteger(new(big.Int).Add((*big.Int)(n1.(*slip.Bignum)), (*big.Int)(t0)))
 	case *slip.Ratio:
-		n1 = (*slip.Ratio)(new(big.Rat).Add((*big.Rat)(n1.(*slip.Ratio)), (*big.Rat)(t0)))
+		n1 = reduceRational(new(big.Rat).Add((*big.Rat)(n1.(*slip.Ratio)), (*big.Rat)(t0)))
 	case slip.Complex:
 		n1 = slip.Complex(complex128(n1.(slip.Complex)) + complex128(t0))
 	}
